@@ -85,6 +85,7 @@ def run_one(prop, tier, seed, i, n, scratch, timeout, replay=None):
                 rj = json.load(f)
             if rj.get("hash_seed") is not None:
                 env["PYTHONHASHSEED"] = str(rj["hash_seed"])
+            env["VF_NO_CET"] = "1" if rj.get("no_cet") else "0"
             if rj.get("optimize") and "-O" not in cmd:
                 cmd.insert(1, "-O")
                 env["PYTHONOPTIMIZE"] = "1"
@@ -177,7 +178,7 @@ def drive(mod, prop, tier, seed, scratch, replay, t0):
             if len(merged["samples"]) < 8:
                 merged["samples"].append(s)
         for k, v in rep["violations"].items():
-            m = merged["violations"].setdefault(k, {"count": 0, "msg": v["msg"], "cases": [], "host_tz": rep.get("host_tz"), "hash_seed": rep.get("hash_seed"), "optimize": rep.get("optimize")})
+            m = merged["violations"].setdefault(k, {"count": 0, "msg": v["msg"], "cases": [], "host_tz": rep.get("host_tz"), "hash_seed": rep.get("hash_seed"), "optimize": rep.get("optimize"), "no_cet": rep.get("no_cet")})
             m["count"] += v["count"]
             m["cases"].extend(v["cases"][: max(0, 3 - len(m["cases"]))])
         for k, v in rep["counters"].items():
@@ -246,7 +247,7 @@ def drive(mod, prop, tier, seed, scratch, replay, t0):
         rpath = os.path.join(rdir, safe_name(key) + ".json")
         with open(rpath, "w") as f:
             json.dump({"property": prop, "key": key, "msg": v["msg"], "count": v["count"],
-                       "seed": seed, "tier": tier, "host_tz": v.get("host_tz"), "hash_seed": v.get("hash_seed"), "optimize": v.get("optimize"), "case": v["cases"][0] if v["cases"] else None,
+                       "seed": seed, "tier": tier, "host_tz": v.get("host_tz"), "hash_seed": v.get("hash_seed"), "optimize": v.get("optimize"), "no_cet": v.get("no_cet"), "case": v["cases"][0] if v["cases"] else None,
                        "more_cases": v["cases"][1:]}, f, indent=1)
         lines.append(f"VIOLATION property={prop} replay={rpath}")
         lines.append(f"  key={key} count={v['count']} :: {v['msg'][:300]}")
